@@ -138,6 +138,9 @@ void UseVariant3() {
   a.Visit([](auto&&) {});
   ca.Visit([](const auto&) {});
   a = "converted"; V x{"converted"};
+  // assignment from a Variant of ANOTHER type list (empty and non-empty source, copy and move)
+  Variant<std::string> narrow_empty, narrow_value{std::string{"n"}};
+  a = narrow_empty; a = narrow_value; a = std::move(narrow_value); a = Variant<std::string>{};
   (void)d; (void)e; (void)g; (void)x;
 }
 
@@ -293,7 +296,7 @@ struct Greedy {
 void UseLvalueCopies() {
   Optional<Greedy> ga, gb; Optional<Greedy> gc{ga}; ga = gb; ga = std::move(gc);
   Entry<Greedy, 1> gea, geb; Entry<Greedy, 1> ec{gea}; gea = geb; ga = gea;
-  Optional<bool> xa, xb; xa = xb; Optional<std::string> ya, yb; ya = yb; ya = std::move(yb);
+  Optional<std::string> ya, yb; ya = yb; ya = std::move(yb);     // (Optional<bool> lvalue assignment: witnesses/c13_moves.cpp)
   (void)ec;
   Optional<bool> ob; Optional<bool> ob2{ob}; Optional<bool> ob3 = ob; (void)ob2; (void)ob3;
   Optional<int> oi; Optional<int> oi2{oi}; (void)oi2;
